@@ -69,6 +69,13 @@ func runHistories(c *RunCtx, n int, family string, cfgFn func(i int, r *Rng) His
 			c.Inconclusive(fmt.Sprintf("history family=%s seed=%d: %s", family, cfg.Seed, res.Inconclusive))
 		}
 		for _, v := range res.Viol {
+			if c.Prop == "C11" && v.Prop == "C09" && res.Stats["disconnects"] > 0 {
+				switch v.Sig {
+				case "subscriberOfDeadConn", "entryLeft", "eventSubLeft", "countMismatch", "gaugeNotZero", "negativeCount":
+					// cache uses of a disconnected connection not released exactly
+					v.Prop = "C11"
+				}
+			}
 			c.Violation(VReport{Prop: v.Prop, Sig: v.Sig, RID: v.RID, Msg: fmt.Sprintf("[%s seed=%d conn=%d] %s", family, cfg.Seed, v.Conn, v.Msg),
 				Witness: histWitness{Kind: "hist", Cfg: cfg, Steps: res.Steps, Frames: res.Frames, BusLog: res.BusLog, ErrLog: res.ErrLog}})
 		}
@@ -157,7 +164,8 @@ func init() {
 			cfg.Mode = "seq"
 			cfg.NRes = 2 + r.Intn(4)
 			cfg.GetOutcome = [4]int{70, 12, 9, 9}
-			cfg.W = map[string]int{"sub": 24, "unsub": 24, "get": 10, "call": 3, "callres": 8, "new": 4, "auth": 3, "change": 4, "add": 2, "remove": 2, "delete": 1, "reaccess": 2}
+			cfg.AccessOutcome = [4]int{76, 10, 8, 6}
+			cfg.W = map[string]int{"sub": 24, "unsub": 24, "get": 10, "call": 3, "callres": 10, "new": 5, "auth": 5, "change": 4, "add": 2, "remove": 2, "delete": 1, "reaccess": 2}
 			return cfg
 		})
 	})
@@ -215,6 +223,7 @@ func init() {
 			cfg.Mode = "burst"
 			cfg.Burst = 3 + r.Intn(10)
 			cfg.GetOutcome = [4]int{75, 10, 8, 7}
+			cfg.Metrics = true
 			cfg.W = map[string]int{"sub": 22, "unsub": 8, "get": 8, "call": 6, "callres": 6, "new": 2, "auth": 2, "change": 8, "add": 4, "remove": 3, "custom": 5, "reaccess": 3, "token": 3, "disconnect": 10, "answer": 8, "quiesce": 2}
 			return cfg
 		})
